@@ -412,7 +412,13 @@ func (req *SrvReq) Respond() {
 
 		flushreqs = nil
 	} else {
-		delete(conn.reqs, req.Tc.Tag)
+		if req.next != nil {
+			// the newest request of its tag was cancelled while older ones are still outstanding: they keep the tag
+			conn.reqs[req.Tc.Tag] = req.next
+			req.next.prev = nil
+		} else {
+			delete(conn.reqs, req.Tc.Tag)
+		}
 		flushreqs = req.flushreq
 	}
 	conn.Unlock()
